@@ -92,6 +92,9 @@ func TestC03(t *testing.T) {
 			g := &wf.G{T: rt, Rare: rapid.Bool().Draw(rt, "rare")}
 			w := g.Workflow()
 			g.Styles(w.Root)
+			if rapid.Bool().Draw(rt, "shufflekeys") {
+				g.ShuffleKeys(w.Root)
+			}
 			lay := g.Layout()
 			src := ye.Emit(w.Root, lay)
 			if ds, err := lint(src); err != nil || len(ds) > 0 {
